@@ -15,6 +15,7 @@ import (
 	"context"
 	"encoding/json"
 	"errors"
+	"flag"
 	"fmt"
 	"math/big"
 	"os"
@@ -47,6 +48,9 @@ import (
 type GerDef struct {
 	Hash string `json:"hash"` // 32 bytes hex
 	Idx  uint32 `json:"idx"`  // L1 info tree index the L1 info tree syncer answers for this root
+	// Lag: the L1 info tree syncer is behind: the first Lag lookups of this root answer db.ErrNotFound, then the leaf is
+	// there (the unchanged appender returns an error and GetEventsByBlockRange retries the log until it succeeds)
+	Lag int `json:"lag,omitempty"`
 }
 
 type Ev struct {
@@ -254,7 +258,12 @@ func (s *l2sim) FilterLogs(ctx context.Context, q ethereum.FilterQuery) ([]types
 // fakes of the two other collaborators
 // ---------------------------------------------------------------------------------------------
 
-type l1info struct{ idx map[common.Hash]uint32 }
+type l1info struct {
+	mu    gosync.Mutex
+	idx   map[common.Hash]uint32
+	lag   map[common.Hash]int
+	calls map[common.Hash]int
+}
 
 func (l *l1info) GetLastL1InfoTreeRoot(ctx context.Context) (treetypes.Root, error) {
 	return treetypes.Root{}, errors.New("not scripted")
@@ -263,8 +272,14 @@ func (l *l1info) GetInfoByIndex(ctx context.Context, index uint32) (*l1infotrees
 	return nil, errors.New("not scripted")
 }
 func (l *l1info) GetInfoByGlobalExitRoot(ger common.Hash) (*l1infotreesync.L1InfoTreeLeaf, error) {
+	l.mu.Lock()
+	defer l.mu.Unlock()
 	i, ok := l.idx[ger]
 	if !ok {
+		return nil, db.ErrNotFound
+	}
+	if l.calls[ger] < l.lag[ger] { // the L1 info tree syncer has not stored this leaf yet
+		l.calls[ger]++
 		return nil, db.ErrNotFound
 	}
 	return &l1infotreesync.L1InfoTreeLeaf{L1InfoTreeIndex: i, GlobalExitRoot: ger}, nil
@@ -460,9 +475,10 @@ func run(in In) (out Out) {
 	}()
 	sim := &l2sim{gers: in.Gers}
 	sim.setChain(in.Hist)
-	li := &l1info{idx: map[common.Hash]uint32{}}
+	li := &l1info{idx: map[common.Hash]uint32{}, lag: map[common.Hash]int{}, calls: map[common.Hash]int{}}
 	for _, g := range in.Gers {
 		li.idx[common.HexToHash(g.Hash)] = g.Idx
+		li.lag[common.HexToHash(g.Hash)] = g.Lag
 	}
 	var n *node
 	for k, seg := range in.Segs {
@@ -538,6 +554,40 @@ func mkGers(rng *hlib.Rng, k int) []GerDef {
 	return gers
 }
 
+// genEventsAt appends cnt events in block b given (and updating) the set of currently injected roots.
+func genEventsAt(rng *hlib.Rng, nG int, injected map[int]bool, b uint64, cnt int, h []Ev) []Ev {
+	for c := 0; c < cnt; c++ {
+		var inj, free []int
+		for g := 0; g < nG; g++ {
+			if injected[g] {
+				inj = append(inj, g)
+			} else {
+				free = append(free, g)
+			}
+		}
+		r := rng.Intn(100)
+		switch {
+		case r < 30 && len(inj) > 0: // remove an injected root
+			g := inj[rng.Intn(len(inj))]
+			h = append(h, Ev{B: b, Rm: true, G: g})
+			delete(injected, g)
+		case r < 35: // remove a root that is not injected (no row to delete)
+			h = append(h, Ev{B: b, Rm: true, G: rng.Intn(nG)})
+		case r < 42 && len(inj) > 0: // inject an already injected root again (no UNIQUE on the root column)
+			h = append(h, Ev{B: b, Rm: false, G: inj[rng.Intn(len(inj))]})
+		case len(free) > 0:
+			g := free[rng.Intn(len(free))]
+			h = append(h, Ev{B: b, Rm: false, G: g})
+			injected[g] = true
+		default:
+			g := inj[rng.Intn(len(inj))]
+			h = append(h, Ev{B: b, Rm: true, G: g})
+			delete(injected, g)
+		}
+	}
+	return h
+}
+
 // genHist generates events for blocks from..to given the set of currently injected roots.
 func genHist(rng *hlib.Rng, nG int, injected map[int]bool, from, to uint64, density int, multi bool) []Ev {
 	h := []Ev{}
@@ -549,37 +599,74 @@ func genHist(rng *hlib.Rng, nG int, injected map[int]bool, from, to uint64, dens
 		if multi && rng.Intn(3) == 0 {
 			cnt = 2 + rng.Intn(2)
 		}
-		for c := 0; c < cnt; c++ {
-			var inj, free []int
-			for g := 0; g < nG; g++ {
-				if injected[g] {
-					inj = append(inj, g)
-				} else {
-					free = append(free, g)
+		h = genEventsAt(rng, nG, injected, b, cnt, h)
+	}
+	return h
+}
+
+// genBigCase: the tip jumps by 1001..5000 blocks between two polls (node far behind: first start on an old chain,
+// restart after a long stop, RPC outage), with events right before, at and after every multiple-of-1000 offset
+// from the block the downloader resumes at, then a few ordinary polls so that later blocks get processed.
+func genBigCase(rng *hlib.Rng) In {
+	in := In{Kind: "one"}
+	nG := 4 + rng.Intn(4)
+	in.Gers = mkGers(rng, nG)
+	in.Queries = mkQueries(in.Gers)
+	t0 := uint64(rng.Intn(6))
+	jump := uint64(1001 + rng.Intn(4000))
+	if rng.Intn(4) == 0 {
+		jump = uint64(hlib.Pick(rng, 1001, 1002, 1999, 2000, 2001, 3000, 4999, 5000))
+	}
+	tip := t0 + jump
+	blocks := map[uint64]bool{}
+	injected := map[int]bool{}
+	// a few early events; the last one decides lastProcessed (the cursor after a restart)
+	early := genHist(rng, nG, injected, 1, t0, 50, false)
+	last := uint64(0)
+	for _, e := range early {
+		last = e.B
+	}
+	for _, c := range []uint64{t0 + 1, last + 1} { // cursor of the running downloader / of a restarted one
+		for k := uint64(1); c+1000*k-1 <= tip+1; k++ {
+			for _, d := range []uint64{0, 1, 2} {
+				if b := c + 1000*k - 2 + d; b > t0 && b <= tip && rng.Intn(4) != 0 {
+					blocks[b] = true
 				}
-			}
-			r := rng.Intn(100)
-			switch {
-			case r < 30 && len(inj) > 0: // remove an injected root
-				g := inj[rng.Intn(len(inj))]
-				h = append(h, Ev{B: b, Rm: true, G: g})
-				delete(injected, g)
-			case r < 35: // remove a root that is not injected (no row to delete)
-				h = append(h, Ev{B: b, Rm: true, G: rng.Intn(nG)})
-			case r < 42 && len(inj) > 0: // inject an already injected root again (no UNIQUE on the root column)
-				h = append(h, Ev{B: b, Rm: false, G: inj[rng.Intn(len(inj))]})
-			case len(free) > 0:
-				g := free[rng.Intn(len(free))]
-				h = append(h, Ev{B: b, Rm: false, G: g})
-				injected[g] = true
-			default:
-				g := inj[rng.Intn(len(inj))]
-				h = append(h, Ev{B: b, Rm: true, G: g})
-				delete(injected, g)
 			}
 		}
 	}
-	return h
+	for i := 0; i < 3; i++ {
+		blocks[t0+1+uint64(rng.Intn(int(jump)))] = true
+	}
+	blocks[tip] = rng.Bool()
+	tail := uint64(1 + rng.Intn(3))
+	for b := tip + 1; b <= tip+tail; b++ {
+		blocks[b] = true
+	}
+	var bs []uint64
+	for b, on := range blocks {
+		if on {
+			bs = append(bs, b)
+		}
+	}
+	sort.Slice(bs, func(i, j int) bool { return bs[i] < bs[j] })
+	in.Hist = early
+	for _, b := range bs {
+		in.Hist = genEventsAt(rng, nG, injected, b, 1, in.Hist)
+	}
+	var after []uint64
+	for b := tip + 1; b <= tip+tail; b++ {
+		after = append(after, b)
+	}
+	switch rng.Intn(3) {
+	case 0: // running downloader sees the jump
+		in.Segs = []Seg{{Polls: append([]uint64{t0, tip}, after...)}}
+	case 1: // the jump is the first thing a restarted node sees
+		in.Segs = []Seg{{Polls: []uint64{t0}}, {Polls: append([]uint64{tip}, after...)}}
+	default: // ... and it is restarted again afterwards
+		in.Segs = []Seg{{Polls: []uint64{t0}}, {Polls: []uint64{tip}}, {Polls: after}}
+	}
+	return in
 }
 
 func injectedBelow(hist []Ev, b uint64) map[int]bool {
@@ -646,6 +733,13 @@ func genCase(rng *hlib.Rng, thorough bool) In {
 	}
 	nG := 2 + rng.Intn(5)
 	in.Gers = mkGers(rng, nG)
+	if rng.Intn(4) == 0 { // the L1 info tree syncer lags behind for some roots
+		for i := range in.Gers {
+			if rng.Bool() {
+				in.Gers[i].Lag = 1 + rng.Intn(3)
+			}
+		}
+	}
 	in.Queries = mkQueries(in.Gers)
 	maxB := uint64(8 + rng.Intn(16))
 	if thorough {
@@ -727,6 +821,25 @@ func fixedCases() []In {
 		// reorg above everything processed
 		mk(g(4, 6), []Ev{{B: 3, G: 0}}, Seg{Polls: []uint64{6}},
 			Seg{Reorg: &Reorg{B: 5, Hist: []Ev{{B: 6, G: 1}}}, Polls: []uint64{7}}),
+		// first start on an old chain: 2500 blocks at the first poll; events before / at / after offsets 1000 and 2000
+		// from block 1; indexes grow with the block (except the last root) so that a lost insertion leaves no root
+		// at or above its index
+		mk(g(1, 2, 3, 4, 5, 6, 7, 0), []Ev{{B: 10, G: 0}, {B: 1000, G: 1}, {B: 1001, G: 2}, {B: 1002, G: 3}, {B: 2000, G: 4},
+			{B: 2001, G: 5}, {B: 2500, G: 6}, {B: 2501, G: 7}}, Seg{Polls: []uint64{2500, 2501}}),
+		// restart after a long stop (lastProcessed = 2): 1700 blocks at the first poll, a removal among them
+		mk(g(7, 1, 9, 0), []Ev{{B: 2, G: 0}, {B: 1001, G: 1}, {B: 1002, G: 2}, {B: 1500, Rm: true, G: 0}, {B: 1701, G: 3}},
+			Seg{Polls: []uint64{3}}, Seg{Polls: []uint64{1700, 1701}}),
+		// running downloader (next block 5) sees the tip jump by 3000
+		mk(g(2, 3, 4, 5, 6, 1), []Ev{{B: 3, G: 0}, {B: 1004, G: 1}, {B: 1005, G: 2}, {B: 2005, G: 3}, {B: 3004, G: 4}, {B: 3005, G: 5}},
+			Seg{Polls: []uint64{4, 3004, 3005}}),
+		// jump of exactly 1000 blocks, then 5000
+		mk(g(1, 2, 3, 4, 5, 6, 7), []Ev{{B: 1001, G: 0}, {B: 2001, G: 1}, {B: 2002, G: 2}, {B: 3001, Rm: true, G: 0}, {B: 5001, G: 3},
+			{B: 6001, G: 4}, {B: 6002, G: 5}}, Seg{Polls: []uint64{1, 1001, 6001, 6002}}),
+		// the L1 info tree syncer is two lookups behind for the only root: the downloader must wait for it, not drop it
+		mk([]GerDef{{Hash: ger(1).Hash, Idx: 4, Lag: 2}}, []Ev{{B: 2, G: 0}}, Seg{Polls: []uint64{3}}),
+		// ... same while the node is restarted, and with a second root that is not lagging
+		mk([]GerDef{{Hash: ger(1).Hash, Idx: 9, Lag: 3}, {Hash: ger(2).Hash, Idx: 4}}, []Ev{{B: 1, G: 1}, {B: 4, G: 0}, {B: 6, Rm: true, G: 1}},
+			Seg{Polls: []uint64{2}}, Seg{Polls: []uint64{5, 7}}),
 		// reinsertion after removal, largest index
 		mk(g(^uint32(0), 0), []Ev{{B: 1, G: 0}, {B: 2, Rm: true, G: 0}, {B: 3, G: 0}, {B: 4, G: 1}}, Seg{Polls: []uint64{4}}),
 	}
@@ -736,53 +849,33 @@ func gen(f *hlib.Flags) []In {
 	ins := fixedCases()
 	rng := hlib.NewRng(f.Seed)
 	for i := 0; i < f.N; i++ {
+		if i%25 == 7 { // few: each costs the model a walk over thousands of blocks
+			ins = append(ins, genBigCase(rng))
+			continue
+		}
 		ins = append(ins, genCase(rng, f.Tier == "thorough"))
 	}
 	return ins
 }
 
-func main() {
-	f := hlib.ParseFlags()
-	log.Init(log.Config{Environment: log.EnvironmentProduction, Level: "fatal", Outputs: []string{"/dev/null"}})
-	sync.LogFatalf = func(format string, args ...any) { panic(stuckPanic{msg: fmt.Sprintf(format, args...)}) }
-	var err error
-	base := ""
-	if st, e := os.Stat("/dev/shm"); e == nil && st.IsDir() {
-		base = "/dev/shm"
-	}
-	tmpRoot, err = os.MkdirTemp(base, "verif_c16_")
-	if err != nil {
-		panic(err)
-	}
-	defer os.RemoveAll(tmpRoot)
-	var ins []In
-	if f.Replay != "" {
-		for _, raw := range hlib.ReadJSONL(f.Replay) {
-			var in In
-			if err := json.Unmarshal(raw, &in); err != nil {
-				panic(err)
-			}
-			ins = append(ins, in)
-		}
-	} else {
-		ins = gen(f)
-	}
+// runBatched runs the items in this process, or, for large runs, in child processes of `batch` items each:
+// db.RunMigrations (called by newProcessor) never closes the handle it opens, so every opened store leaks file
+// descriptors of the SQLite file.
+func runBatched(f *hlib.Flags, prop string, items []any, runOne func(json.RawMessage) any) {
 	w := hlib.NewWriter(f.Out)
 	defer w.Close()
-	// db.RunMigrations (called by newProcessor) never closes the handle it opens, so every simulated node start
-	// leaks file descriptors of the SQLite file: large runs are split over child processes.
 	const batch = 200
-	if len(ins) > batch && os.Getenv("VERIF_C16_CHILD") == "" {
-		for start := 0; start < len(ins); start += batch {
-			end := min(start+batch, len(ins))
+	if len(items) > batch && os.Getenv("VERIF_C16_CHILD") == "" {
+		for start := 0; start < len(items); start += batch {
+			end := min(start+batch, len(items))
 			inFile := filepath.Join(tmpRoot, fmt.Sprintf("batch_%d_in.jsonl", start))
 			outFile := filepath.Join(tmpRoot, fmt.Sprintf("batch_%d_out.jsonl", start))
 			iw := hlib.NewWriter(inFile)
-			for _, in := range ins[start:end] {
-				iw.Emit(in)
+			for _, it := range items[start:end] {
+				iw.Emit(it)
 			}
 			iw.Close()
-			cmd := exec.Command(os.Args[0], "-replay", inFile, "-out", outFile, "-tier", f.Tier)
+			cmd := exec.Command(os.Args[0], "-prop", prop, "-replay", inFile, "-out", outFile, "-tier", f.Tier)
 			cmd.Env = append(os.Environ(), "VERIF_C16_CHILD=1")
 			cmd.Stdout, cmd.Stderr = os.Stderr, os.Stderr
 			if err := cmd.Run(); err != nil {
@@ -799,7 +892,55 @@ func main() {
 		}
 		return
 	}
-	for _, in := range ins {
-		w.Emit(run(in))
+	for _, it := range items {
+		raw, err := json.Marshal(it)
+		if err != nil {
+			panic(err)
+		}
+		w.Emit(runOne(raw))
 	}
+}
+
+func main() {
+	prop := flag.String("prop", "c16", "c16 (downloader + driver + processor) | c07 (processor under storage faults) | c04 (processor under reorgs)")
+	f := hlib.ParseFlags()
+	log.Init(log.Config{Environment: log.EnvironmentProduction, Level: "fatal", Outputs: []string{"/dev/null"}})
+	sync.LogFatalf = func(format string, args ...any) { panic(stuckPanic{msg: fmt.Sprintf(format, args...)}) }
+	var err error
+	base := ""
+	if st, e := os.Stat("/dev/shm"); e == nil && st.IsDir() {
+		base = "/dev/shm"
+	}
+	tmpRoot, err = os.MkdirTemp(base, "verif_c16_")
+	if err != nil {
+		panic(err)
+	}
+	defer os.RemoveAll(tmpRoot)
+	if *prop == "c07" || *prop == "c04" {
+		storeMain(f, *prop)
+		return
+	}
+	var ins []In
+	if f.Replay != "" {
+		for _, raw := range hlib.ReadJSONL(f.Replay) {
+			var in In
+			if err := json.Unmarshal(raw, &in); err != nil {
+				panic(err)
+			}
+			ins = append(ins, in)
+		}
+	} else {
+		ins = gen(f)
+	}
+	items := make([]any, len(ins))
+	for i := range ins {
+		items[i] = ins[i]
+	}
+	runBatched(f, "c16", items, func(raw json.RawMessage) any {
+		var in In
+		if err := json.Unmarshal(raw, &in); err != nil {
+			panic(err)
+		}
+		return run(in)
+	})
 }
